@@ -19,14 +19,22 @@ META = {
 CLASSES = ["data3d", "force3d", "emg", "events"]
 
 
-def _mk(I, cls, lens, kind="any", nvals=1):
+def _mk(I, cls, lens, kind="any", nvals=1, chans=False):
     blk = S.new_block(I, cls)
     labs, items = [], []
+    chs = []
     for j, L in enumerate(lens):
         lab = I.chars(f"lab{j}", L, kind=kind)
         # events: alternate between events without values (falsy objects) and with values
         it = S.new_item(I, cls, lab, fill=float(j + 1), nvals=(nvals if j % 2 == 0 else 1))
-        S.add_item(cls, blk, it)
+        ch = None
+        if cls == "emg" and chans:
+            # explicit acquisition channels in arbitrary (not necessarily ascending) order
+            ch = I.ibv(f"ch{j}", "i16")
+            for prev in chs:
+                I.assume(I.not_(prev == ch))
+            chs.append(ch)
+        S.add_item(cls, blk, it, ch)
         labs.append(lab)
         items.append(it)
     return blk, labs, items
@@ -42,9 +50,9 @@ def _basic(I, cls, blk, items):
     I.prove(f"C18.{cls}.iter_yields_items_in_order", all(a is b for a, b in zip(it, items)))
 
 
-def int_case(cls, lens, window):
+def int_case(cls, lens, window, chans=False):
     def h(I):
-        blk, labs, items = _mk(I, cls, lens)
+        blk, labs, items = _mk(I, cls, lens, chans=chans)
         n = len(items)
         before = _snapshot(cls, blk)
         _basic(I, cls, blk, items)
@@ -158,6 +166,8 @@ def instances(tier):
             nm = "".join(str(x) for x in lens) or "empty"
             n = len(lens)
             out.append(Instance(f"{cls}.int.{nm}", int_case(cls, lens, window), goals=(["in_range"] if n else []) + ["out_of_range"]))
+            if cls == "emg" and n >= 2:
+                out.append(Instance(f"{cls}.int.{nm}.channels", int_case(cls, lens, window, chans=True), goals=["in_range", "out_of_range"], cost=2 ** n))
             for kl in ([0, 1, 2] if q else [0, 1, 2, 3, 4]):
                 goals = [] if (kl == 0 and 0 in lens) else ["absent"]
                 if kl in lens:
